@@ -230,12 +230,15 @@ func TestVerifC50Bulk(t *testing.T) {
 			nrep++
 		}
 		rwg.Add(1)
+		running := make(chan struct{})
 		go func() {
 			defer rwg.Done()
+			close(running)
 			for !done.Load() {
 				add(ls.stats(nil))
 			}
 		}()
+		<-running
 		openFinal := int64(0)
 		for i := 0; i < nw; i++ {
 			w := &c50Worker{rng: rand.New(rand.NewSource(seed*104729 + int64(r)*977 + int64(i)))}
